@@ -665,8 +665,11 @@ class MemorizedFunc(Logger):
 
     def _hash_func(self):
         """Hash a function to key the online cache"""
-        func_code_h = hash(getattr(self.func, "__code__", None))
-        return id(self.func), hash(self.func), func_code_h
+        # The code object itself, not its hash: code objects that differ only
+        # by constants with the same hash (e.g. -1 and -2) have the same hash
+        # but do not compare equal.
+        func_code = getattr(self.func, "__code__", None)
+        return id(self.func), hash(self.func), func_code
 
     def _write_func_code(self, func_code, first_line):
         """Write the function code and the filename to a file."""
